@@ -5223,6 +5223,10 @@ class PyCdlib:
                     if parent.ptr is not None:
                         num_bytes_to_remove += self._remove_from_ptr_size(parent.ptr)
 
+                    if parent is self._rr_moved_record:
+                        # The next relocated directory needs a new one.
+                        self._rr_moved_record = dr.DirectoryRecord()
+
                 cl = child.rock_ridge.moved_to_cl_dr
                 if cl is None:
                     raise pycdlibexception.PyCdlibInternalError('Invalid child link record')
